@@ -513,7 +513,6 @@ func serveOne(o *Outcome, ch *Chooser, logf func(string, ...any), srv *sse.Serve
 	}
 }
 
-
 func init() {
 	register(&World{
 		Name: "session", Level: "fault_enumeration",
